@@ -175,11 +175,17 @@ class GatedEnv:
     # ---- reservation monitor (acquire returned .. release returned) ---------------------------------
     def want(self, n: int):
         self.tls.want = n
+        self.tls.in_acquire = True
 
     def acquired(self):
+        self.tls.in_acquire = None
         self.mon.held.append([self.tid(), self.tls.want])
 
+    def releasing(self):
+        self.tls.in_acquire = False
+
     def released(self):
+        self.tls.in_acquire = None
         t = self.tid()
         for ent in self.mon.held:
             if ent[0] == t:
@@ -378,7 +384,13 @@ class _GCondition:
             return
         st = env.me()
         ctx = st.ctx or {"waited": False, "blocked": False}
-        op = ("WakeOk" if ctx["blocked"] else "AcqOk") if ctx["waited"] else "Release"
+        # which budget operation this critical section belongs to is known from the traced budget
+        # (acquire/release are entered through _TracedBudget); the waiting idiom (wait_for, bare wait, none)
+        # only decides between a first-attempt admission and an admission after a wake-up
+        acquiring = getattr(env.tls, "in_acquire", None)
+        if acquiring is None:
+            acquiring = ctx["waited"]
+        op = ("WakeOk" if ctx["blocked"] else "AcqOk") if acquiring else "Release"
         env.emit(op)
         st.ctx = None
         self.owner = None
@@ -616,12 +628,16 @@ class RealEnv:
     # the reservation monitor changes atomically with the budget event (see _RCondition.__exit__)
     def want(self, n: int):
         self.tls.want = n
+        self.tls.in_acquire = True
 
     def acquired(self):
-        return None
+        self.tls.in_acquire = None
+
+    def releasing(self):
+        self.tls.in_acquire = False
 
     def released(self):
-        return None
+        self.tls.in_acquire = None
 
     def _hold(self):
         self.mon.held.append([self.tid(), getattr(self.tls, "want", 0)])
@@ -734,7 +750,10 @@ class _RCondition:
     acquire = __enter__
 
     def __exit__(self, *a):
-        op = ("WakeOk" if self.ctx.blocked else "AcqOk") if self.ctx.waited else "Release"
+        acquiring = getattr(self.env.tls, "in_acquire", None)
+        if acquiring is None:
+            acquiring = self.ctx.waited
+        op = ("WakeOk" if self.ctx.blocked else "AcqOk") if acquiring else "Release"
         if a and a[0] is not None:
             self.real.release()       # an exception (time-out) leaves the block: nothing was reserved
             return False
@@ -767,6 +786,8 @@ class _RCondition:
         self.ctx.blocked = True
         if not self.real.wait(timeout if timeout is not None else REAL_WAIT_TIMEOUT):
             raise RealWaitTimeout("budget wait timed out")
+        if self.env.aborting:
+            raise RealWaitTimeout("aborted after a deadlock verdict")
         return True
 
     def notify(self, n=1):
@@ -901,12 +922,20 @@ class installed:
 
             def acquire(self, nbytes):
                 env.want(int(max(nbytes, 0)))
-                tok = super().acquire(nbytes)
+                try:
+                    tok = super().acquire(nbytes)
+                except BaseException:
+                    env.tls.in_acquire = None
+                    raise
                 env.acquired()
                 return tok
 
             def release(self, reservation):
-                super().release(reservation)
+                env.releasing()
+                try:
+                    super().release(reservation)
+                finally:
+                    env.tls.in_acquire = None
                 env.released()
 
         ed.threading = env.threading_ns()
